@@ -245,6 +245,9 @@ func runC13(o Opts) *Result {
 	defer d.Close()
 	uniq := map[uint64]bool{}
 	for idx := 0; idx < o.N; idx++ {
+		if timeUp() {
+			break
+		}
 		if o.Only >= 0 && idx != o.Only {
 			continue
 		}
@@ -450,6 +453,9 @@ func runC14(o Opts) *Result {
 	ctx := context.Background()
 	nHTTP := o.N
 	for idx := 0; idx < nHTTP; idx++ {
+		if timeUp() {
+			break
+		}
 		if o.Only >= 0 && idx != o.Only {
 			continue
 		}
